@@ -47,6 +47,19 @@ CLASSES = [
      "script": [(0, "go depth 1"), ("wait", "bestmove"), (0, "go depth 1")],
      "cmds": ["CmdGo", "CmdGo"], "sched": [I] + [T(0, True)] * 4 + [I, T(0), I] + full(1, True),
      "need_points": ["AFTER_BESTMOVE"]},
+    # the same windows after searches that END BY THEMSELVES in other ways than a depth limit: the game clock, all 255 depths done
+    {"name": "go-right-after-bestmove-of-a-clock-limited-search", "env": {"AFTER_BESTMOVE": 500},
+     "script": [(0, "go wtime 40 btime 40"), ("wait", "bestmove"), (0, "go depth 1")],
+     "cmds": ["CmdGo", "CmdGo"], "sched": [I] + [T(0, True)] * 4 + [I, T(0), I] + full(1, True),
+     "need_points": ["AFTER_BESTMOVE"]},
+    {"name": "go-right-after-bestmove-of-a-search-that-ran-out-of-depths", "env": {"AFTER_BESTMOVE": 500},
+     "script": [(0, "position fen 6k1/5ppp/8/8/8/8/8/R5K1 w - - 0 1"), (0, "go infinite"), ("wait", "bestmove"), (0, "go depth 1")],
+     "cmds": ["CmdPosition", "CmdGo", "CmdGo"], "sched": [I, I] + [T(0, True)] * 4 + [I, T(0), I] + full(1, True),
+     "need_points": ["AFTER_BESTMOVE"]},
+    {"name": "go-before-bestmove-of-a-clock-limited-search", "env": {"BEFORE_BESTMOVE": 500},
+     "script": [(0, "go wtime 40 btime 40"), (0.25, "go depth 1")],
+     "cmds": ["CmdGo", "CmdGo"], "sched": [I, T(0, True), T(0, True), T(0, True), I, T(0), T(0), I] + full(1, True),
+     "need_points": ["BEFORE_BESTMOVE"]},
     {"name": "go-while-thread-is-exiting", "env": {"THREAD_EXIT": 500},
      "script": [(0, "go depth 1"), ("wait", "bestmove"), (0.05, "go depth 1")],
      "cmds": ["CmdGo", "CmdGo"], "sched": [I] + [T(0, True)] * 4 + [I, T(0), I] + full(1, True),
@@ -68,6 +81,39 @@ CLASSES = [
      "sched": [I] + [T(0, True)] * 4 + [I, T(0), I] + [T(1, True)] * 4 + [I, T(1), I] + full(2, True),
      "need_points": ["AFTER_BESTMOVE"]},
 ]
+
+
+def slow_classes(rng, n):
+    """Command histories played SLOWLY (every finite search has long ended before the next line, an infinite one is
+    still running): the interleaving is then determined, so the protocol model can be run on it and must agree on
+    the number of bestmoves and of refused go's.  Covers what the forced classes do not: go after a refused go,
+    several refused go's, stop/go alternations of any length."""
+    fixed = [["gi", "gd", "gd", "stop"], ["gi", "gd", "stop", "gd"], ["gd", "gi", "gi", "isready", "stop", "gi", "gd", "stop"],
+             ["gi", "stop", "stop", "gd", "gi", "gd", "gd", "stop", "gd"]]
+    words = ["gi", "gd", "gd", "stop", "isready", "position"]
+    out = []
+    for hist in fixed + [[rng.choice(words) for _ in range(rng.randrange(3, 9))] for _ in range(n)]:
+        hist = list(hist) + ["stop"]          # nothing is left running at the end
+        line = {"gi": "go infinite", "gd": "go depth 1", "stop": "stop", "isready": "isready", "position": "position startpos moves e2e4"}
+        cmd = {"gi": "CmdGo", "gd": "CmdGo", "stop": "CmdStop", "isready": "CmdIsReady", "position": "CmdPosition"}
+        # which go's start a thread, and whether that thread ends by itself (only needed to label the schedule)
+        kinds, latest = [], None               # latest = [is_infinite, stopped]
+        for w in hist:
+            if w in ("gi", "gd"):
+                if latest is not None and latest[0] and not latest[1]:
+                    continue                   # refused
+                latest = [w == "gi", False]
+                kinds.append(w == "gi")
+            elif w == "stop" and latest is not None:
+                latest[1] = True
+        sched = []
+        for _ in hist:
+            sched.append(I)
+            for k, inf in enumerate(kinds):
+                sched += [T(k, not inf)] * 5   # labels of threads not yet spawned / already exited are skipped by `run`
+        out.append({"name": "slow-history:" + " ".join(hist), "env": {}, "script": [(0.25, line[w]) for w in hist],
+                    "cmds": [cmd[w] for w in hist], "sched": sched, "need_points": [], "settle": 0.5})
+    return out
 
 
 def run_class(c, reps):
@@ -95,7 +141,7 @@ def run_class(c, reps):
             while time.time() < deadline:
                 time.sleep(0.05)
                 busy = sum(1 for l in e.err_lines() if "already running" in l)
-                if e.count("bestmove") >= ngo - busy and time.time() - t_last > 1.2:
+                if e.count("bestmove") >= ngo - busy and time.time() - t_last > c.get("settle", 1.2):
                     break
             b2 = len(e.lines())
             e.send("isready")
@@ -119,19 +165,21 @@ def run(ctx):
         return err
     violations, cov = [], {"samples": []}
     reps = 1 if ctx["tier"] == "quick" else 5
+    import random
+    classes = CLASSES + slow_classes(random.Random(ctx["seed"] + 10), 6 if ctx["tier"] == "quick" else 60)
     # model outcomes of the catalogued schedules
     items = []
-    for c in CLASSES:
+    for c in classes:
         items.append("let s := run fixed (init [%s]) [%s] in (total_bestmoves s, total_busy s, total_accepted s, all_exited s, length (pending s))"
                      % ("; ".join(c["cmds"]), "; ".join(c["sched"])))
     vals, lg = C.coq_eval_items("c10m", HEADER, items, lambda l: l, nshards=2, timeout=300)
     if vals is None:
         rp = C.write_replay(prop, {"broken": "model schedule evaluation", "log": lg[-2000:]})
         violations.append({"replay": rp, "no_input": True})
-        vals = [None] * len(CLASSES)
+        vals = [None] * len(classes)
     runs = 0
     discarded = 0
-    for c, mv in zip(CLASSES, vals):
+    for c, mv in zip(classes, vals):
         obs = run_class(c, reps)
         for o in obs:
             runs += 1
@@ -156,16 +204,18 @@ def run(ctx):
                 violations.append({"replay": rp})
                 break
         cov["samples"].append({"class": c["name"], "observed": obs[0], "model": mv})
-    cov["schedule_classes"] = len(CLASSES)
+    cov["schedule_classes"] = len(classes)
     cov["schedule_runs"] = runs
     cov["schedule_runs_discarded_order_not_materialised"] = discarded
     cov["evaluations"] = runs
-    cov["distinct_nontrivial"] = len(CLASSES)
+    cov["distinct_nontrivial"] = len(classes)
     cov["rule"] = ("%d catalogued interleavings of {go, stop, position, isready, go} with the search thread's events (before/after "
                    "search entry, after the first iteration, between flag-clear and bestmove, after the bestmove line, during "
                    "thread exit), each forced on the real binary through guarded schedule points (sleeps >= 150 ms, firing logged; "
                    "runs whose order did not materialise are discarded) and compared (bestmove count, refused go count, liveness) "
-                   "with the Coq protocol model run on the corresponding schedule" % len(CLASSES))
+                   "with the Coq protocol model run on the corresponding schedule; plus slowly played command histories (go infinite / go depth 1 / "
+                   "stop / isready / position in any order and number, every finite search over before the next line) whose interleaving is "
+                   "determined: bestmove count and refused-go count vs the model" % len(CLASSES))
     return SP.finish(prop, gate, violations, cov)
 
 
